@@ -9,7 +9,8 @@
    and [libm_exp] are the C library's functions. *)
 From Coq Require Import ZArith List Bool Reals.
 From Flocq Require Import Core IEEE754.BinarySingleNaN.
-From VV Require Import Base.F64 Lambda.LambdaDefs Lambda.LambdaProofs Lambda.LambdaHeap Lambda.LambdaFloat Lambda.LambdaWelford.
+From VV Require Import Base.F64 Lambda.LambdaDefs Lambda.LambdaProofs Lambda.LambdaHeap Lambda.LambdaFloat Lambda.LambdaWelford
+  Lambda.LambdaSerialDefs Lambda.LambdaSerial.
 Import ListNotations.
 Local Open Scope Z_scope.
 
@@ -204,6 +205,33 @@ Theorem C08_accuracy_reg_in_01 : forall pl, pl <> [] -> Z.of_nat (length pl) <= 
 Proof. exact accuracy_reg_is_fraction. Qed.
 Print Assumptions C08_accuracy_reg_in_01.
 
+(* ---------------------------------------------------------- (de)serialisation *)
+(* serialize::save followed by serialize::lambda::load gives back the model
+   (token level: SERIALIZE_ID dispatch, individual, tables / distributions /
+   members, class names), for every kind of model: regression, team
+   regression, dyn_slot / gaussian / binary, and their (winner-takes-all) teams.
+   [wf_model]: what the constructors guarantee (matrix data = cols * rows,
+   one class per row, at least one class name, members of the team's kind). *)
+Theorem C08_load_of_save_is_the_model : forall (ind : Type) (m : smodel ind) rest, wf_model ind m ->
+  load_model ind (save_model ind m ++ rest) = Some (m, rest).
+Proof. exact load_save. Qed.
+Print Assumptions C08_load_of_save_is_the_model.
+
+Theorem C08_predict_load_save : forall (ind : Type) libm_atan libm_exp run (m : smodel ind) rest m' rest',
+  wf_model ind m ->
+  load_model ind (save_model ind m ++ rest) = Some (m', rest') ->
+  rest' = rest /\ spredict ind libm_atan libm_exp run m' = spredict ind libm_atan libm_exp run m.
+Proof. exact predict_load_save. Qed.
+Print Assumptions C08_predict_load_save.
+
+(* the tables of a freshly built dyn_slot model survive (matrix flattened row
+   by row, read back cols * rows) *)
+Theorem C08_dyn_tables_roundtrip : forall d dsize,
+  length (dm_matrix d) = dm_ns d -> Forall (fun r => length r = dm_classes d) (dm_matrix d) ->
+  dyn_of_sdyn (sdyn_of_dyn d dsize) = d.
+Proof. exact dyn_of_sdyn_of_dyn. Qed.
+Print Assumptions C08_dyn_tables_roundtrip.
+
 (* ------------------------------------------------------------ non-vacuity *)
 Example C08_ex_slot_class : fix_unknown 2 None [2; 1; 2; 2; 0; 2]%nat = [1; 1; 1; 1; 0; 0]%nat.
 Proof. reflexivity. Qed.
@@ -235,3 +263,5 @@ Proof. eexists. vm_compute. reflexivity. Qed.
 Example C08_ex_gauss_build : exists g, gauss_build 3 [(Some L.one, 0%nat); (Some L.cut, 0%nat); (None, 2%nat)] = Some g /\
   length g = 3%nat.
 Proof. eexists. split; [unfold gauss_build; cbn [gauss_fill repeat nth_error set_nth]; reflexivity|reflexivity]. Qed.
+Example C08_ex_wf_team : wf_model nat (MTeam nat KDyn 2 [CDyn nat 7%nat {| sy_cols := 2; sy_rows := 1; sy_data := [3; 0]; sy_cls := [0]; sy_dsize := 3 |}] [5; 6]).
+Proof. split; [constructor; [split; [reflexivity|unfold wf_core, wf_sdyn; simpl; repeat split; discriminate || reflexivity]|constructor]|discriminate]. Qed.
